@@ -214,7 +214,10 @@ def main(argv=None):
             return [dict(self.pts[0], dt=0.125)]
 
     for wt, wpt in (("states(x=1)\nparameters(a=1/4)\nk = 1/4*x + abs(x)**(1/2)\ndx_dt = k*a\n", {"t": 0.0, "states": {"x": 8.0}, "params": {"a": 0.25}}),
-                    ("states(x=1, y=2)\ndx_dt = Mod(y, 2)\ndy_dt = 1\n", {"t": 0.0, "states": {"x": 0.5, "y": -1.7}, "params": {}})):
+                    ("states(x=1, y=2)\ndx_dt = Mod(y, 2)\ndy_dt = 1\n", {"t": 0.0, "states": {"x": 0.5, "y": -1.7}, "params": {}}),
+                    # constants for which sympy's C printer substitutes a math.h macro (M_PI_4, M_SQRT2, M_LN2, ...)
+                    ("states(x=1, y=2)\nk = atan(1)*x + sqrt(2.0)*y + log(2.0) + 2.0/pi + exp(1.0)\nj = (abs(atan(1)) + 2.0)**(x/8) + sqrt(2)*x + log(2)*y + log(10) + 1/pi + pi/2 + exp(1)\n"
+                     "dx_dt = k\ndy_dt = j\n", {"t": 0.0, "states": {"x": 0.5, "y": -1.7}, "params": {}})):
         cw = pipeline.Case(drv, wt)
         mw = textmodel.model_from_items(cw.captured)
         core.guarded(rep, wt, check_model, rep, drv, FixedGen([wpt]), rng, mw, wt, cw, False)
